@@ -745,7 +745,7 @@ def gen_props(rng, p, n):
         if k == 'visibility':
             v = rng.choice([1, 2, 3, 'expert', 'advanced', 'user'])
         elif k == 'export':
-            v = rng.choice([False, True, '_alias', 'alias2', 0, 1])
+            v = rng.choice([False, True, '_alias_' + p['name'], 'alias2' + p['name'], 0, 1])
         elif k == 'readonly':
             v = rng.choice([True, False, 0, 1])
         elif k == 'group':
@@ -933,7 +933,7 @@ def gen_case(rng):
 
 def gen_cases(seed, tier):
     rng = random.Random(seed * 7919 + 10)
-    n = {'quick': 2200, 'thorough': 30000, 'search': 12000}.get(tier, 2600)
+    n = {'quick': 1800, 'thorough': 20000, 'search': 12000}.get(tier, 2600)
     return [gen_case(rng) for _ in range(n)]
 
 
@@ -1311,6 +1311,10 @@ def check_applied(case, obs, name, A, o):
             continue
         en = expected_export(p, e, mod_export)
         acc = None
+        clash = en is not None and any(expected_export(y['p'], y['cfg'], mod_export) == en
+                                       for q, y in A['params'].items() if q != n)
+        if clash:
+            continue            # two accessibles configured with the same export name: not decided by the property
         if desc is not None:
             accs = desc['accessibles']
             if en is None:
